@@ -262,6 +262,24 @@ def primaryLastWins (k lbl : String) (base after : Dump) : Viol :=
   | some ("redeclare-not-last-write", d) => some ("primary-label-not-last-write", d)
   | v => v
 
+def dropStyle (k : String) (st : List (String × String)) : List (String × String) := st.filter fun kv => kv.1 != k
+
+/-- C10, `k.style.opacity: v` then `k.style.opacity: null`: only that attribute is removed -/
+def attrNullRemovesAttr (k : String) (withAttr after : Dump) : Viol :=
+  let expect := (vobjs withAttr).map fun o => if eqFoldS o.abs k then { o with style := dropStyle "opacity" o.style } else o
+  if expect.map foldObj != (vobjs after).map foldObj then
+    some ("attribute-null-not-exact", s!"after `{k}.style.opacity: null`: expected {expect.map showObj} got {(vobjs after).map showObj}")
+  else if (vedges withAttr).map foldEdge != (vedges after).map foldEdge then some ("attribute-null-changes-edges", k) else none
+
+/-- C10, an attribute of a connection set and then assigned null (`(e)[i].style.opacity: null`, or `null` inside the connection's
+    map): the connection stays, only that attribute is removed -/
+def edgeAttrNullRemovesAttr (what : String) (withAttr after : Dump) : Viol :=
+  let we := vedges withAttr; let ae := vedges after
+  if ae.length < we.length then some ("edge-attribute-null-removes-edge", s!"{what}: {we.length} connections before, {ae.length} after") else
+  let expect := we.map fun e => if e.style.any (fun kv => kv == ("opacity", "0.35")) then { e with style := dropStyle "opacity" e.style } else e
+  if expect.map foldEdge != ae.map foldEdge then some ("edge-attribute-null-not-exact", s!"{what}: expected {expect.map showEdge} got {ae.map showEdge}")
+  else if (vobjs withAttr).map foldObj != (vobjs after).map foldObj then some ("edge-attribute-null-changes-objects", what) else none
+
 /-- C11, `(e)[i].label: ZZhit` appended: exactly one connection changed, the one of that class -/
 def indexedRefHitsOne (esrc edst : String) (sa da : Bool) (lbl : String) (base after : Dump) : Viol :=
   let be := vedges base; let ae := vedges after
